@@ -185,6 +185,46 @@ the relative paths of the `CgroupPath`s returned (the prefix filter keeps all of
 def resolve (t : Tree) (fsAt : List Str) (pattern : CgPath) : List (List Str) :=
   if t.isDir fsAt then walk t pattern.parts fsAt [] else []
 
+/-! ## `GLOB_BRACE`
+
+`Fs::glob` passes `GLOB_BRACE`: before anything is matched, glob rewrites the pattern text: the first `{` that has a matching
+`}` is replaced, once per comma-separated alternative at its own nesting level, by that alternative (`{a}` is `a`, `{}` is the
+empty text); the results are expanded again.  A `{` without a matching `}` is an ordinary character.  Alternatives may contain `/`
+(the text is the whole relative path), so expansion happens on the joined path, not per component. -/
+
+/-- scan the text after a `{`: `depth` open inner braces, `cur` = current alternative (reversed), `alts` = finished ones
+(reversed).  Returns the alternatives and the text after the matching `}`. -/
+def braceScan : Nat → Str → List Str → Str → Option (List Str × Str)
+  | _, _, _, [] => none
+  | 0, cur, alts, '}' :: rest => some ((cur.reverse :: alts).reverse, rest)
+  | 0, cur, alts, ',' :: rest => braceScan 0 [] (cur.reverse :: alts) rest
+  | d, cur, alts, '{' :: rest => braceScan (d + 1) ('{' :: cur) alts rest
+  | d + 1, cur, alts, '}' :: rest => braceScan d ('}' :: cur) alts rest
+  | d, cur, alts, c :: rest => braceScan d (c :: cur) alts rest
+
+/-- first expandable brace: (text before it, alternatives, text after it) -/
+def firstBrace : Str → Str → Option (Str × List Str × Str)
+  | _, [] => none
+  | pre, '{' :: rest =>
+    match braceScan 0 [] [] rest with
+    | some (alts, post) => some (pre.reverse, alts, post)
+    | none => firstBrace ('{' :: pre) rest
+  | pre, c :: rest => firstBrace (c :: pre) rest
+
+/-- all expansions, in glob's order (fuel: every step removes one `{`) -/
+def braceExpand : Nat → Str → List Str
+  | 0, s => [s]
+  | n + 1, s =>
+    match firstBrace [] s with
+    | none => [s]
+    | some (pre, alts, post) => alts.flatMap fun a => braceExpand n (pre ++ a ++ post)
+
+/-- `resolveWildcard` with brace alternatives: each expansion of the relative pattern text is resolved on its own (a
+directory matched by two expansions is listed twice, as glob does) -/
+def resolveB (t : Tree) (fsAt : List Str) (pattern : CgPath) : List (List Str) :=
+  let text := joinSlash pattern.parts
+  (braceExpand (text.count '{' + 1) text).flatMap fun s => resolve t fsAt { pattern with parts := split s '/' }
+
 /-- The prefix filter of `resolveWildcard` applied to one path string returned by glob. -/
 def prefixFilter (fs path : Str) : Option CgPath :=
   if fs.isPrefixOf path then
